@@ -79,6 +79,9 @@ type Finisher interface {
 
 var registry = map[string]Prop{}
 
+// Subcommands: extra internal sub-commands of the binary (name -> handler).
+var Subcommands = map[string]func(args []string){}
+
 func Register(p Prop) { registry[p.ID()] = p }
 func Get(id string) Prop { return registry[id] }
 func IDs() []string {
